@@ -63,23 +63,28 @@ TABLE = {
             "every reachable rating, the containers and the model unchanged; E2/I4 in every state reachable by one rate call.", "§6 C13, §3-E2",
             "falsy non-list selectors count as not given; Decimal/Fraction/complex may be accepted or cleanly rejected", "E1+E2"),
     "C14": ("model_checking", "explicit-state BFS over call histories on the real code + stateless schedule exploration with iterative preemption bounding + hash-seed alphabet",
-            "E2: every history of depth <= 2 (thorough: 3) over a 256-call alphabet is executed on the real code for 5 classes x 4 model "
-            "configs; every transition is checked for an unchanged model (I1) and bit-identity with the same call on fresh objects (I2). "
-            "E3: every schedule with <= 1 (thorough: 2) preemptions of six 2-3-thread harnesses at line and opcode granularity; each thread "
-            "must return exactly its solo result.  The exploration is repeated under 4 hash seeds with different rating ids and must "
-            "produce one digest.", "§3-E2, §3-E3, §6 C14",
+            "E2: every history of depth <= 2 (thorough: 3) over a 292-call alphabet (and of depth <= 3, thorough 4, over a 33-call option-toggle "
+            "alphabet on one pair of long-lived ratings) is executed on the real code for 5 classes x 3-4 model configs from a warm state; every "
+            "transition is checked for a model identical to a never-used one (I1) and bit-identity with the same call on fresh objects, also with all "
+            "ratings carrying one id (I2). E3: every schedule with <= 1 (thorough: 2) preemptions of fifteen 2-3-thread harnesses at line and opcode "
+            "granularity, warm, from a cold start (every execution in a forked child of a pristine process) and under cache pressure; each thread must "
+            "return exactly its solo result, ids of concurrently created ratings must be distinct, and sequential probe calls afterwards must be "
+            "unaffected.  The exploration is repeated under 4 hash seeds with different rating ids and process pre-histories and must produce one digest.",
+            "§3-E2, §3-E3, §6 C14, §14.2",
             "CPython GIL atomicity of C-level calls; sys.settrace line/opcode events as scheduling points; uuid4 replaced by a counter", "E2+E3"),
     "C15": ("model_checking", "bounded-exhaustive metamorphic comparison of two real executions + explicit-state BFS over call histories with invariant I6",
             "On every game of S2 and T3 (sigma alphabet extended so tau and the clamp are visible) x every weak order, 24 comparisons "
             "Model(s').rate(g, option) == Model(option).rate(g) incl. tau=0 / 0.0 / 1e-300, explicit None and mixed options, "
             "for all five models; 1e-12 relative.  E2: on every rate transition with a per-call option, in every state reachable by one "
-            "(thorough: two) earlier calls, the result must equal what a fresh model built with those options returns (I6).",
+            "(thorough: two) earlier calls - and by up to two (three) earlier calls of the option-toggle alphabet on the same two rating objects - "
+            "the result must equal what a fresh model built with those options returns (I6).",
             "§6 C15, §3-E2", "none beyond CPython floats (both sides are the real code)", "E1+E2"),
     "C16": ("exploration", "bounded-exhaustive metamorphic comparison under rescaling and shifting of the skill scale",
-            "Every game x weak order of S2, P2, P3, T3, T4|V4 rescaled by 4 factors (PL, BT) and shifted by 3 offsets (all five, equal team sizes); "
+            "Every game x weak order of S2, P2, P3, T3, T4|V4 rescaled by 6 factors incl. 2^-30 and 2^30 (PL, BT) and shifted by 3 offsets (all five, equal team sizes); "
             "predictions on G2, G3, G4 under the same transformations.", "§6 C16", "R4; TM shift: reference-interval width", "E1"),
     "C17": ("exploration", "exhaustive grid sweep (x,t) incl. ulp neighbourhoods of all branch thresholds vs. 40-digit mpmath",
-            "v, w, vt, wt on the full product of a dense x grid (plus threshold windows and ulp neighbourhoods) and 70 t values, "
+            "v, w, vt, wt on the full product of a dense x grid on [-40,40] (plus threshold windows and ulp neighbourhoods) and 70 t values, the far field "
+            "|x| up to the largest finite float against closed-form bounds, "
             "and phi_major on [-37.5, 38], each point compared with the mathematical definition at 40 digits; the statement's "
             "clauses are applied verbatim.", "§3-E4, §6 C17",
             "mpmath erfc/exp (cross-checked against a decimal continued fraction in-run)", "E4"),
@@ -93,7 +98,7 @@ TABLE = {
             "Every (mu, sigma) x name x omission pattern through rating/create_rating on default and custom models; 10^4 ids; deepcopy of ratings, teams, "
             "leagues; every game of T3|V6 and P3 rated/predicted with original, create_rating-rebuilt, rating-rebuilt and deep-copied players must agree "
             "bit for bit; E2: restore/copy transitions interleaved with every operation to depth 2 (thorough 3), I5 and I2.", "§6 C20, §3-E2",
-            "name '' == None", "E1+E2"),
+            "create_rating reads a falsy name as no name (I6)", "E1+E2"),
 }
 
 ENGINES = [
